@@ -65,7 +65,7 @@ theorem decode_skip_names (ns : List String) : ∀ (attrs : List (String × Val)
       by_cases hk : k ∈ ns
       · simp [encodeAttrs, decodeAttrs, stripAttrs, hk, ih2]
       · simp [encodeAttrs, decodeAttrs, stripAttrs, hk, ih2, encode, decodeAttr, ftrue, fget, ih1,
-          canonKvs, stripA, canon, nsOf, nsVal, bind, Except.bind, dropTypes, filter_true']
+          canonKvs, stripA, canon, nsOf, nsVal, bind, Except.bind, dropTypes, filter_true_eq]
   | (k, .scalar s) :: rest, hw, ha =>
       step_nonobj ns k _ rest rfl (by simp [wfA]) (decode_skip_names ns rest (by simpa [wfAttrs, wfA] using hw) (by simpa [attrNestedAttrs, attrNested, noObj] using ha))
   | (k, .npScalar dt s) :: rest, hw, ha =>
@@ -261,7 +261,7 @@ theorem skip_names_at_save (ns : List String) (cls : String) (attrs : List (Stri
   have h1 := encodeAttrs_skip_names ns attrs ha'
   have h2 := decode_skip_names ns (stripAttrs ns attrs) (wf_strip ns attrs hw') (attrNested_strip ns attrs ha')
   rw [strip_idempotent] at h2
-  simp [load, save, encode, fget, h1, h2, canon, stripA, bind, Except.bind, dropTypes, filter_true']
+  simp [load, save, encode, fget, h1, h2, canon, stripA, bind, Except.bind, dropTypes, filter_true_eq]
 
 /-- **C14 clause 2 — names skipped at load time** -/
 theorem skip_names_at_load (ns : List String) (cls : String) (attrs : List (String × Val))
@@ -270,7 +270,7 @@ theorem skip_names_at_load (ns : List String) (cls : String) (attrs : List (Stri
   have hw' : wfAttrs attrs = true := by simpa [wfA] using hw
   have ha' : attrNestedAttrs attrs = true := by simpa [attrNested] using ha
   have h2 := decode_skip_names ns attrs hw' ha'
-  simp [load, save, encode, fget, h2, canon, stripA, bind, Except.bind, dropTypes, filter_true']
+  simp [load, save, encode, fget, h2, canon, stripA, bind, Except.bind, dropTypes, filter_true_eq]
 
 /-- **skipping by name at load time gives the same object as skipping the same names at save
 time** (and as doing both) -/
@@ -288,9 +288,9 @@ theorem file_skip_honoured (sk : Skip) (v : Val) : load {} (save sk v) = load sk
   have ht : sk.types.filter (fun n => !sk.types.contains n) = [] := by
     simp [List.filter_eq_nil_iff]
   have hn0 : sk.names.filter (fun n => !([] : List String).contains n) = sk.names := by
-    simp [filter_true']
+    simp [filter_true_eq]
   have ht0 : sk.types.filter (fun n => !([] : List String).contains n) = sk.types := by
-    simp [filter_true']
+    simp [filter_true_eq]
   unfold load save
   simp only [hn, ht, hn0, ht0, List.nil_append, List.append_nil]
 
